@@ -64,10 +64,16 @@ func TestC16(t *testing.T) {
 				b = gen.StrContent(rt, rapid.IntRange(0, 12).Draw(rt, "pieces"))
 			case 1: // long plain run then escapes (growth)
 				b = append(b, '"')
-				for i, n := 0, rapid.IntRange(0, 300).Draw(rt, "run"); i < n; i++ {
+				n := rapid.IntRange(0, 300).Draw(rt, "run")
+				if rapid.IntRange(0, 9).Draw(rt, "longrun?") == 0 {
+					n = []int{1023, 1024, 1025, 2048, 4096, 5000, 20000}[rapid.IntRange(0, 6).Draw(rt, "longrun")]
+				}
+				for i := 0; i < n; i++ {
 					b = append(b, 'p')
 				}
-				b = append(b, gen.StrContent(rt, 4)...)
+				if rapid.IntRange(0, 2).Draw(rt, "escapes?") > 0 {
+					b = append(b, gen.StrContent(rt, 4)...)
+				}
 				b = append(b, '"')
 			default:
 				b = append(b, []string{"", " ", "\n"}[rapid.IntRange(0, 2).Draw(rt, "pre")]...)
